@@ -54,7 +54,17 @@ func verifAnyVal(tag string, depth int) pcommon.Value {
 	return pcommon.NewValueEmpty()
 }
 
-func (o *obfuscation) verifE(s string) string { return o.encryptString(s) }
+// verifE is the substitute the statement speaks of: the configured cipher applied to the original string (the
+// cipher is a contract: a deterministic, length-preserving injection). It deliberately does NOT go through the
+// processor's own encryptString/encryptStringToBytes, so that anything those add on top of the cipher (a
+// normalisation, a truncation, a fallback) shows up as a difference from the reference.
+func (o *obfuscation) verifE(s string) string {
+	r, err := o.encrypt.Encrypt(s)
+	if err != nil {
+		return s
+	}
+	return r.String(true)
+}
 
 // verifExpectValue is the reference model of what a *targeted* value becomes: every string/bytes it
 // contains is replaced by E(original); everything else is bit-identical; containers keep their shape.
